@@ -693,7 +693,8 @@ func (s *Spec) paramsAsMap(parameters []spec.Parameter, res map[string]spec.Para
 		}
 
 		objAsParam, ok := obj.(spec.Parameter)
-		if !ok {
+		if !ok || objAsParam.Ref.String() != "" {
+			// not a parameter, or yet another $ref rather than a parameter proper
 			if callmeOnError(param, ErrInvalidParameterRef(pr.Ref.String())) {
 				continue
 			}
